@@ -37,7 +37,7 @@ def add_duplicates(rng, case):
             st = Stmt(st.dst, st.op, [pick_alias(rng, alias, a) for a in st.args], dict(st.kw))
             out.append(st)
             if st.op in ("pass", "add2", "add3", "acc", "count", "sample", "gate", "halfgate", "delay") and st.dst and rng.random() < 0.25:
-                kind = rng.choice(["exact", "exact", "scalar", "input"])
+                kind = rng.choice(["exact", "exact", "scalar", "input", "passive"])
                 dup = Stmt(st.dst + "_d", st.op, list(st.args), dict(st.kw))
                 if kind == "exact":
                     alias.setdefault(st.dst, [st.dst]).append(dup.dst)
@@ -46,6 +46,14 @@ def add_duplicates(rng, case):
                 elif kind == "scalar" and st.op == "delay":
                     # same definition, same input, same uid; differs ONLY in the scalar k
                     dup.kw["k"] = int(st.kw.get("k", 1)) + rng.choice([1, 2])
+                    expect[st.uid()] = ("distinct2", gname)
+                    out.append(dup)
+                    out.append(S("", "rec", dup.dst, uid=next_uid))
+                    out.append(S("", "rec", st.dst, uid=next_uid + 1))
+                    next_uid += 2
+                elif kind == "passive" and st.op in ("add2", "add3") and not any(a.startswith("~") for a in st.args):
+                    # same definition, same uid, same inputs; differs ONLY in a passive() marker on the last input
+                    dup.args[-1] = "~" + dup.args[-1]
                     expect[st.uid()] = ("distinct2", gname)
                     out.append(dup)
                     out.append(S("", "rec", dup.dst, uid=next_uid))
